@@ -25,6 +25,8 @@ type c13Ctx struct {
 	matchVar ssa.Value // the value tested `== nil` before the creation: the match loop's variable, or a helper result that returns it
 	matchFn  *ssa.Function
 	listObj  ssa.Value
+	decSite  *decisionSite
+	decDone  bool
 }
 
 func runC13(r *Run) {
@@ -797,17 +799,53 @@ func c13HashFunction(r *Run) {
 	}
 	okIn := marshal != nil && nMarshal == 1
 	why := fmt.Sprintf("%d json.Marshal calls", nMarshal)
-	// every non-empty result derives from a digest that was written only with the marshalled bytes
 	okOut := okIn
 	if okIn {
-		isBytes := func(v ssa.Value) bool {
-			for _, o := range origins(v) {
-				ex, isE := o.(*ssa.Extract)
-				if !isE || ex.Index != 0 || ex.Tuple != ssa.Value(marshal) {
-					return false
-				}
+		F := newFrames(r.Prog)
+		F.enterCalls = true
+		top := F.top(fn)
+		// the marshalled bytes, also when seen through the parameters of repository helpers
+		isBytes := func(x fval) bool {
+			x = F.resolve(x)
+			if x.fr != top {
+				return false
 			}
-			return true
+			// exactly the marshalled bytes: no sub-slice, no concatenation
+			seen := map[ssa.Value]bool{}
+			var whole func(v ssa.Value) bool
+			whole = func(v ssa.Value) bool {
+				if seen[v] {
+					return true
+				}
+				seen[v] = true
+				switch y := v.(type) {
+				case *ssa.Extract:
+					return y.Index == 0 && y.Tuple == ssa.Value(marshal)
+				case *ssa.Phi:
+					for _, e := range y.Edges {
+						if !whole(e) {
+							return false
+						}
+					}
+					return len(y.Edges) > 0
+				case *ssa.ChangeType:
+					return whole(y.X)
+				case *ssa.Slice:
+					return y.Low == nil && y.High == nil && y.Max == nil && whole(y.X)
+				case *ssa.UnOp:
+					if a, ok := y.X.(*ssa.Alloc); ok && y.Op == token.MUL {
+						sts := cellStores(a)
+						for _, st := range sts {
+							if !whole(st.Val) {
+								return false
+							}
+						}
+						return len(sts) > 0 && len(sts) == len(refsStores(a))
+					}
+				}
+				return false
+			}
+			return whole(x.v)
 		}
 		for _, b := range fn.Blocks {
 			ret := returnOf(b)
@@ -818,60 +856,8 @@ func c13HashFunction(r *Run) {
 				if s, isC := constString(o); isC && s == "" {
 					continue
 				}
-				// o = hex.EncodeToString(h.Sum(nil)) or similar: find the digest object it depends on
-				var digests []ssa.Value
-				dependsOn(o, func(v ssa.Value) bool {
-					if call, isCall := v.(*ssa.Call); isCall && strings.HasPrefix(calleeName(&call.Call), "crypto/") && strings.HasSuffix(calleeName(&call.Call), ".New") {
-						digests = append(digests, v)
-					}
-					if call, isCall := v.(*ssa.Call); isCall && strings.HasPrefix(calleeName(&call.Call), "crypto/") && strings.HasSuffix(calleeName(&call.Call), ".Sum") {
-						// md5.Sum(bytes): direct digest of the bytes
-						if len(call.Call.Args) == 1 && isBytes(call.Call.Args[0]) {
-							digests = append(digests, nil)
-						} else {
-							okOut, why = false, "digest of something other than the marshalled template"
-						}
-					}
-					return false
-				})
-				if len(digests) == 0 {
-					okOut, why = false, "the returned string does not derive from a crypto digest: "+o.String()
-				}
-				for _, d := range digests {
-					if d == nil {
-						continue
-					}
-					// uses of the digest object: Sum, and writes whose data is the marshalled bytes
-					var uses func(v ssa.Value)
-					uses = func(v ssa.Value) {
-						for _, rr := range refs(v) {
-							switch x := rr.(type) {
-							case *ssa.ChangeInterface, *ssa.MakeInterface:
-								uses(x.(ssa.Value))
-							case *ssa.Call:
-								name := calleeName(&x.Call)
-								switch {
-								case x.Call.IsInvoke() && x.Call.Value == v && x.Call.Method.Name() == "Sum":
-								case x.Call.IsInvoke() && x.Call.Value == v && x.Call.Method.Name() == "Write":
-									if !isBytes(x.Call.Args[0]) {
-										okOut, why = false, "the digest is written with data other than json.Marshal(template)"
-									}
-								case name == "io.Copy" && len(x.Call.Args) == 2 && x.Call.Args[0] == v:
-									src := unwrap(x.Call.Args[1])
-									rd, isCall := src.(*ssa.Call)
-									if !isCall || calleeName(&rd.Call) != "bytes.NewReader" || !isBytes(rd.Call.Args[0]) {
-										okOut, why = false, "the digest is fed from a reader that is not over json.Marshal(template)"
-									}
-								default:
-									okOut, why = false, "the digest object is passed to "+name
-								}
-							case *ssa.DebugRef:
-							default:
-								okOut, why = false, "unexpected use of the digest object: "+rr.String()
-							}
-						}
-					}
-					uses(d)
+				if ok, w := c13DigestOf(F, fval{v: o, fr: top}, isBytes); !ok {
+					okOut, why = false, w
 				}
 			}
 		}
@@ -879,23 +865,187 @@ func c13HashFunction(r *Run) {
 	r.Check("C13.R2", "hash input", pos, sf, "the template hash is a crypto digest fed with exactly encoding/json.Marshal(template) (map keys are marshalled in sorted order, so reordering them keeps the identity)", okIn && okOut, why)
 }
 
+// c13DigestOf: the string x is (an encoding of) a crypto digest whose only input is data accepted by
+// isBytes — computed in x's function or in a repository helper that returns it.
+func c13DigestOf(F *frames, x fval, isBytes func(fval) bool) (bool, string) {
+	x = F.resolve(x) // enters helpers that return one value
+	okOut, why := true, ""
+	var digests []ssa.Value
+	nSum := 0
+	dependsOnV(x.v, func(v ssa.Value) bool {
+		call, isCall := v.(*ssa.Call)
+		if !isCall {
+			return false
+		}
+		n := calleeName(&call.Call)
+		if strings.HasPrefix(n, "crypto/") && strings.Contains(n, ".New") {
+			digests = append(digests, v)
+		}
+		if !call.Call.IsInvoke() && strings.HasPrefix(n, "crypto/") && strings.Contains(n, ".Sum") {
+			nSum++
+			if len(call.Call.Args) != 1 || !isBytes(fval{v: call.Call.Args[0], fr: x.fr}) {
+				okOut, why = false, "digest of something other than the marshalled template"
+			}
+		}
+		return false
+	})
+	if len(digests) == 0 && nSum == 0 {
+		return false, "the returned string does not derive from a crypto digest: " + x.v.String()
+	}
+	for _, d := range digests {
+		var uses func(v ssa.Value)
+		uses = func(v ssa.Value) {
+			for _, rr := range refs(v) {
+				switch u := rr.(type) {
+				case *ssa.ChangeInterface, *ssa.MakeInterface:
+					uses(u.(ssa.Value))
+				case *ssa.Call:
+					name := calleeName(&u.Call)
+					switch {
+					case u.Call.IsInvoke() && u.Call.Value == v && u.Call.Method.Name() == "Sum":
+					case u.Call.IsInvoke() && u.Call.Value == v && u.Call.Method.Name() == "Write":
+						if !isBytes(fval{v: u.Call.Args[0], fr: x.fr}) {
+							okOut, why = false, "the digest is written with data other than json.Marshal(template)"
+						}
+					case name == "io.Copy" && len(u.Call.Args) == 2 && u.Call.Args[0] == v:
+						src := unwrap(u.Call.Args[1])
+						rd, isCall := src.(*ssa.Call)
+						if !isCall || calleeName(&rd.Call) != "bytes.NewReader" || !isBytes(fval{v: rd.Call.Args[0], fr: x.fr}) {
+							okOut, why = false, "the digest is fed from a reader that is not over json.Marshal(template)"
+						}
+					default:
+						okOut, why = false, "the digest object is passed to "+name
+					}
+				case *ssa.DebugRef:
+				default:
+					okOut, why = false, "unexpected use of the digest object: "+rr.String()
+				}
+			}
+		}
+		uses(d)
+	}
+	return okOut, why
+}
+
 // ---------------------------------------------------------------------------------------------
 // R3
 
+// deleteSite handles one Delete(ERS) effect. The guards are checked where the deletion is decided: at
+// the Delete call when the deleted object is an element of the list being iterated, or — collect then
+// act — at every append that fills the slice of pointers the Delete loop ranges over (in this
+// function or in the repository function that returns that slice).
 func (c *c13Ctx) deleteSite(e *Effect) {
 	r := c.r
 	fn := e.Fn
 	sf := shortFunc(fn)
 	pos := r.Prog.Pos(e.Call.Pos())
+	const cGuard = "delete guards"
+	dcall, _ := e.Call.(*ssa.Call)
+	if dcall == nil {
+		r.Undecided("C13.R3", cGuard, pos, sf, "Delete is deferred or spawned")
+		return
+	}
+	k := newKeyer(fn)
+	if _, _, okE := c13Elem(k, e.Obj); okE {
+		c.deleteGuards(fn, dcall.Block(), e.Obj, pos, "")
+		return
+	}
+	// element of a slice of pointers?
+	var T ssa.Value
+	if u, ok := unwrap(e.Obj).(*ssa.UnOp); ok && u.Op == token.MUL {
+		if ia, ok := u.X.(*ssa.IndexAddr); ok {
+			T = ia.X
+		}
+	}
+	if T == nil {
+		r.Undecided("C13.R3", cGuard, pos, sf, "the deleted object is neither an element of the list being iterated nor an element of a collected slice")
+		return
+	}
+	type cand struct {
+		fn  *ssa.Function
+		b   *ssa.BasicBlock
+		obj ssa.Value
+		pos string
+	}
+	var cands []cand
+	undec := ""
+	addSteps := func(in *ssa.Function, rep ssa.Value) {
+		inits, steps, blocks := c20Accum(rep)
+		for _, iv := range inits {
+			if !c20IsEmptySlice(iv) {
+				undec = "the collected slice does not start empty"
+			}
+		}
+		if len(steps) == 0 {
+			undec = "the collected slice is not filled by appends"
+		}
+		for i, ap := range steps {
+			el, ok := c20AppendedElem(ap)
+			if !ok || el.val == nil {
+				undec = "an append to the collected slice does not add exactly one object"
+				continue
+			}
+			cands = append(cands, cand{in, blocks[i], el.val, r.Prog.Pos(ap.Pos())})
+		}
+	}
+	rep := c20RepOf(T)
+	switch {
+	case rep != nil:
+		addSteps(fn, rep)
+	default:
+		for _, o := range origins(T) {
+			var call *ssa.Call
+			idx := 0
+			switch y := o.(type) {
+			case *ssa.Extract:
+				call, _ = y.Tuple.(*ssa.Call)
+				idx = y.Index
+			case *ssa.Call:
+				call = y
+			}
+			var G *ssa.Function
+			if call != nil {
+				G = staticCallee(&call.Call)
+			}
+			if G == nil || !r.Prog.IsRuleSite(G) {
+				undec = "the slice of objects to delete comes from " + o.String()
+				continue
+			}
+			rv := singleReturn(G, idx)
+			if rv == nil || c20RepOf(rv) == nil {
+				undec = shortFunc(G) + " does not return one slice variable"
+				continue
+			}
+			addSteps(G, c20RepOf(rv))
+		}
+	}
+	if undec != "" || len(cands) == 0 {
+		if undec == "" {
+			undec = "no append fills the slice of objects to delete"
+		}
+		r.Undecided("C13.R3", cGuard, pos, sf, undec)
+		return
+	}
+	for i, cd := range cands {
+		suffix := ""
+		if i > 0 {
+			suffix = fmt.Sprintf(" (collect site %d)", i+1)
+		}
+		c.deleteGuards(cd.fn, cd.b, cd.obj, cd.pos, suffix)
+	}
+}
+
+// deleteGuards: block `at` of fn (the Delete call, or the append that selects obj for deletion) is
+// reached, within an iteration over the listed replica sets, only under the clean-up guards for obj.
+func (c *c13Ctx) deleteGuards(fn *ssa.Function, at *ssa.BasicBlock, obj ssa.Value, pos, suffix string) {
+	r := c.r
+	sf := shortFunc(fn)
 	ff := computeFacts(fn)
 	k := ff.K
-	dcall, _ := e.Call.(*ssa.Call)
-	S, idx, okE := c13Elem(k, e.Obj)
-	const (
-		cGuard = "delete guards"
-		nGuard = "on every path of the iteration that reaches Delete: current != nil, item.Name != current.Name, upToDate == nil or item.Name != upToDate.Name, and the all-zero predicate returned true for the deleted object"
-	)
-	if !okE || dcall == nil {
+	cGuard := "delete guards" + suffix
+	const nGuard = "on every path of the iteration that reaches the deletion (or the selection for deletion): current != nil, item.Name != current.Name, upToDate == nil or item.Name != upToDate.Name, and the all-zero predicate returned true for the deleted object"
+	S, idx, okE := c13Elem(k, obj)
+	if !okE {
 		r.Undecided("C13.R3", cGuard, pos, sf, "the deleted object is not an element of a list being iterated")
 		return
 	}
@@ -939,7 +1089,7 @@ func (c *c13Ctx) deleteSite(e *Effect) {
 	type roles struct{ current, upToDate ssa.Value }
 	var rl roles
 	okRoles, whyRoles := c.cleanupRoles(fn, &rl.current, &rl.upToDate)
-	r.Check("C13.R3", "roles of current and upToDate", pos, sf,
+	r.Check("C13.R3", "roles of current and upToDate"+suffix, pos, sf,
 		"the clean-up receives the promotion decision's result as `current` and the R1 match variable as `upToDate`", okRoles, whyRoles)
 	if !okRoles {
 		return
@@ -947,7 +1097,7 @@ func (c *c13Ctx) deleteSite(e *Effect) {
 	isCur := func(v ssa.Value) bool { return unwrap(v) == rl.current }
 	isUTD := func(v ssa.Value) bool { return unwrap(v) == rl.upToDate }
 
-	paths, okP := enumPaths(fn, k, body, func(b *ssa.BasicBlock) bool { return b == dcall.Block() }, func(b *ssa.BasicBlock) bool { return b == H || b == dcall.Block() }, 5000)
+	paths, okP := enumPaths(fn, k, body, func(b *ssa.BasicBlock) bool { return b == at }, func(b *ssa.BasicBlock) bool { return b == H || b == at }, 5000)
 	r.paths += len(paths)
 	if !okP || len(paths) == 0 {
 		r.Undecided("C13.R3", cGuard, pos, sf, "path cap exceeded or Delete not reachable from the loop body")
@@ -996,7 +1146,7 @@ func (c *c13Ctx) deleteSite(e *Effect) {
 				return false
 			}
 			for i, arg := range call.Call.Args {
-				if isERSPtr(arg) && (unwrap(arg) == unwrap(e.Obj) || sameElem(arg)) {
+				if isERSPtr(arg) && (unwrap(arg) == unwrap(obj) || sameElem(arg)) {
 					zeroPred = cal
 					_ = i
 					return true
@@ -1013,7 +1163,7 @@ func (c *c13Ctx) deleteSite(e *Effect) {
 	if zeroPred != nil {
 		c13ZeroPredicate(r, zeroPred)
 	} else {
-		r.Check("C13.R3", "zero-status predicate", pos, sf, "a predicate over the deleted object's status guards Delete", false, "none found")
+		r.Check("C13.R3", "zero-status predicate"+suffix, pos, sf, "a predicate over the deleted object's status guards Delete", false, "none found")
 	}
 }
 
@@ -1023,7 +1173,11 @@ func (c *c13Ctx) cleanupRoles(fn *ssa.Function, current, upToDate *ssa.Value) (b
 	if c.matchVar == nil {
 		return false, "no match variable (R1 failed)"
 	}
-	site := findDecision(r, "C13.R3")
+	if !c.decDone {
+		c.decDone = true
+		c.decSite = findDecision(r, "C13.R3")
+	}
+	site := c.decSite
 	if site == nil {
 		return false, "the promotion decision feeding status.activeReplicaSet was not found"
 	}
@@ -1036,21 +1190,14 @@ func (c *c13Ctx) cleanupRoles(fn *ssa.Function, current, upToDate *ssa.Value) (b
 	if !utdSeen {
 		return false, "the promotion decision does not receive the R1 match variable as its up-to-date replica set"
 	}
-	isDecision := func(v ssa.Value) bool {
-		os := origins(v)
-		if len(os) == 0 {
-			return false
-		}
-		for _, o := range os {
-			ex, ok := o.(*ssa.Extract)
-			if !ok || ex.Index != 0 || ex.Tuple != ssa.Value(site.call) {
-				return false
-			}
-		}
-		return true
-	}
+	return c.rolesIn(fn, site, current, upToDate, 0)
+}
+
+// rolesIn finds the values that stand, inside fn, for the decision's result and for the match variable:
+// the values themselves in the function that takes the decision, parameters bound to them further down.
+func (c *c13Ctx) rolesIn(fn *ssa.Function, site *decisionSite, current, upToDate *ssa.Value, depth int) (bool, string) {
+	r := c.r
 	if fn == site.caller {
-		// inline clean-up: the values themselves
 		var cur ssa.Value
 		for _, rr := range refs(site.call) {
 			if ex, ok := rr.(*ssa.Extract); ok && ex.Index == 0 {
@@ -1063,14 +1210,30 @@ func (c *c13Ctx) cleanupRoles(fn *ssa.Function, current, upToDate *ssa.Value) (b
 		*current, *upToDate = cur, c.matchVar
 		return true, "inline"
 	}
+	if depth > 3 {
+		return false, "the clean-up is too far from the function taking the promotion decision"
+	}
 	sites := callSitesOf(fn, c.reach)
 	if len(sites) == 0 {
 		return false, shortFunc(fn) + " has no static call site"
 	}
 	ci, ui := -1, -1
 	for _, s := range sites {
-		if s.Parent() != site.caller {
-			return false, "clean-up is called from " + shortFunc(s.Parent()) + ", not from the function taking the promotion decision"
+		var curC, utdC ssa.Value
+		if ok, why := c.rolesIn(s.Parent(), site, &curC, &utdC, depth+1); !ok {
+			return false, why
+		}
+		isCur := func(v ssa.Value) bool {
+			os := origins(v)
+			if len(os) == 0 {
+				return false
+			}
+			for _, o := range os {
+				if o != curC {
+					return false
+				}
+			}
+			return true
 		}
 		ci2, ui2 := -1, -1
 		for i, a := range s.Common().Args {
@@ -1078,9 +1241,9 @@ func (c *c13Ctx) cleanupRoles(fn *ssa.Function, current, upToDate *ssa.Value) (b
 				continue
 			}
 			switch {
-			case isDecision(a):
+			case isCur(a):
 				ci2 = i
-			case unwrap(a) == ssa.Value(c.matchVar):
+			case unwrap(a) == utdC:
 				ui2 = i
 			}
 		}
